@@ -1,7 +1,25 @@
-(* C14 -- placeholder until the session theorems for this property are in place *)
-From SF Require Import Session Session_proofs Session_c07.
-Theorem C14_pre_logon_frame : forall cfg s o s' os,
-    not_logged s -> pools_ok s -> not_app_send o -> step cfg s o = (s', os) ->
-    Forall post_logon_types (wire_types os).
-Proof. exact logon_step_wires. Qed.
-Print Assumptions C14_pre_logon_frame.
+(* C14 -- A TestRequest is answered by one Heartbeat echoing its TestReqID. *)
+From SF Require Import Bytes Values Wire Parse Session Session_proofs Session_clean Session_handlers.
+
+(* For every logged-on state and every byte string that parses as a TestRequest: the handler
+   emits exactly one message -- a Heartbeat whose TestReqID field holds the id the parser
+   extracted (which by C18 is the value of field 112 of the request, byte for byte) -- stored
+   first under its own number, in the same sequential step (so before any later inbound message
+   is looked at), and changes nothing that governs the session. *)
+Theorem C14 :
+  forall cfg s d tm,
+    clean cfg s -> save_first s ->
+    parse_as msgtype_TestRequest tpl_TestRequest d = Ok tm -> is_logged s = true ->
+    exists s' calls,
+      run_in_handler cfg s HTestRequest d =
+        (s', calls ++ [OWire (fst (prepare (stamped s (heartbeat_echo (get_string tag_TestReqID (m_body tm))))))], true)
+      /\ Forall is_call calls /\ same_control s s' /\ clean cfg s' /\ save_first s'.
+Proof. exact testrequest_clean. Qed.
+Print Assumptions C14.
+
+Theorem C14_echo_field :
+  forall id,
+    get_kv tag_TestReqID (m_body (heartbeat_echo id)) = Some (VString true id)
+    /\ mt_of (heartbeat_echo id) = msgtype_Heartbeat /\ m_header (heartbeat_echo id) = tpl_Header.
+Proof. exact heartbeat_echo_field. Qed.
+Print Assumptions C14_echo_field.
